@@ -89,8 +89,19 @@ class Effects:
             return self.aval(e.value, state, fi)
         if isinstance(e, ast.Starred):
             return self.aval(e.value, state, fi)
+        if isinstance(e, (ast.Tuple, ast.List)):
+            out = frozenset()
+            for x in e.elts:
+                out |= self.aval(x, state, fi)
+            return out
+        if isinstance(e, (ast.GeneratorExp, ast.ListComp, ast.SetComp)):
+            st2 = dict(state)
+            self._bind_comprehensions(e, st2, fi)
+            return self.aval(e.elt, st2, fi)
         if isinstance(e, ast.Call):
             fn = call_name(e)
+            if fn in ("tuple", "list") and len(e.args) == 1:
+                return self.aval(e.args[0], state, fi)
             if fn in VIEW_FUNCS and e.args:
                 return frozenset((o, "view") for o, m in self.aval(e.args[0], state, fi))
             if fn in ("np.array", "numpy.array") and e.args:
@@ -107,6 +118,24 @@ class Effects:
             ret = self._returns(fi, e, state)
             return ret
         return FRESH
+
+    def _bind_comprehensions(self, root, state, fi):
+        """bind the targets of every comprehension inside ``root`` to (views of) the elements of what they iterate"""
+        for n in ast.walk(root):
+            if isinstance(n, ast.comprehension) and isinstance(n.target, ast.Name):
+                it = n.iter
+                val = set()
+                if isinstance(it, (ast.Tuple, ast.List)):
+                    for x in it.elts:
+                        val |= set(self.aval(x, state, fi))
+                else:
+                    for o, m in self.aval(it, state, fi):
+                        if o[0] == "param" and m == "alias" and (o[1] in getattr(self, "_listparams", ()) or
+                                                                  o[1] == getattr(self, "_vararg", None)):
+                            val.add((("elem", o[1]), "alias"))
+                        else:
+                            val.add((o, "view"))
+                state[n.target.id] = state.get(n.target.id, FRESH) | frozenset(val)
 
     def _returns(self, fi, call, state):
         out = set()
@@ -138,9 +167,12 @@ class Effects:
         if callee.cls is not None and params and params[0] in ("self", "cls"):
             params = params[1:]
         binding = {}
+        va = callee.node.args.vararg.arg if getattr(callee.node, "args", None) is not None and callee.node.args.vararg else None
         for i, a in enumerate(call.args):
-            if i < len(params):
+            if i < len(params) and params[i] != va:
                 binding[params[i]] = self._arg_aval(a, state, fi)
+            elif va:
+                binding[va] = binding.get(va, frozenset()) | frozenset((o, m, "elem") for o, m in self.aval(a, state, fi))
         for k in call.keywords:
             if k.arg:
                 binding[k.arg] = self._arg_aval(k.value, state, fi)
@@ -160,6 +192,10 @@ class Effects:
         """-> (effects list, returns aval, states per cfg node)"""
         cfg = CFG(fi.node)
         params = [p for p in fi.params if p not in ("self", "cls")]
+        va = fi.node.args.vararg.arg if getattr(fi.node, "args", None) is not None and fi.node.args.vararg else None
+        self._vararg = va
+        if va and va not in params:
+            params = params + [va]
         init = {p: frozenset({(("param", p), "alias")}) for p in params}
         # closures: free variables of nested functions refer to the parent's params
         if fi.parent is not None:
@@ -254,8 +290,13 @@ class Effects:
         else:
             exprs = [s]
         for ex in exprs:
+            if any(isinstance(n, ast.comprehension) for n in ast.walk(ex)):
+                st2 = dict(state)
+                self._bind_comprehensions(ex, st2, fi)
+            else:
+                st2 = state
             for c in [n for n in ast.walk(ex) if isinstance(n, ast.Call)]:
-                self._call_effects(c, s, state, fi, effects, seen)
+                self._call_effects(c, s, st2, fi, effects, seen)
         if isinstance(s, ast.Assign):
             for t in s.targets:
                 self._assign(t, s.value, s, state, fi, effects, seen)
